@@ -107,6 +107,7 @@ def compile_prog(prog):
             n['cs'] = [{'c': c['c'], 'b': compile_prog(c['b'])} for c in n['cs']]
             n['e'] = compile_prog(n['e'])
             n.pop('form')
+            n.pop('named_else', None)
         elif t in ('let', 'with', 'raise'):
             n['b'] = compile_prog(n['b'])
         elif t == 'in':
@@ -226,7 +227,10 @@ def pr(prog, sty='dtml'):
                 for i, cb in enumerate(n['cs']):
                     out.append(o('if' if i == 0 else 'elif', _ref(cb['c'])) + pr(cb['b'], sty))
                 if n['he']:
-                    out.append(o('else') + pr(n['e'], sty))
+                    # the else tag may repeat what the if tag says (the documented long form): <dtml-else a> after <dtml-if a>
+                    first = _ref(n['cs'][0]['c'])
+                    named = n.get('named_else') and n['cs'][0]['c']['k'] == 'name' and not first.startswith('name=')
+                    out.append(o('else', first if named else '') + pr(n['e'], sty))
                 out.append(c('if'))
         elif t == 'let':
             out.append(o('let', ' '.join('%s=%s' % (b['n'], _letref(b['c'])) for b in n['bs'])) +
